@@ -106,6 +106,21 @@ def check_spec(spec: NetSpec, label, st: Stats, plan):
                                      f"construction): {exc_text(e)}", case))
                     break
                 compare(spec, nxt, refmodel.step(spec, val, P), st, "numpy (lookups read during construction)", case, problems)
+        # ---- element-by-element stepping through the per-element API (links are stepped BEFORE the origins), twice
+        if full:
+            from ..harness import np_manual_steps
+            for vlabel, val in valgen.vectors(spec, 0):
+                st.inc("executions", 2)
+                other = valgen.base_vector(spec, 1 if vlabel == "base0" else 0)
+                case = {"spec": spec.describe(), "config": label, "P": P, "val": {f"{k[0]}.{k[1]}": v for k, v in val.items()},
+                        "engine": "numpy", "manual": True}
+                try:
+                    nxt, _ = np_manual_steps(spec, [other, val], P)
+                except Exception as e:  # noqa: BLE001
+                    problems.append((f"{PROP}/exception/{exc_site(e)}/{type(e).__name__}", f"numpy (element-by-element "
+                                     f"stepping): {exc_text(e)}", case))
+                    break
+                compare(spec, nxt, refmodel.step(spec, val, P), st, "numpy (element-by-element stepping, second step)", case, problems)
         # ---- the same network reached by editing a different, already stepped network in place
         if full:
             for (vlabel, val), emode in zip(list(valgen.vectors(spec, 0)) * 2, ("links", "attachments", "replace")):
@@ -272,7 +287,11 @@ def replay(case):
     st = Stats()
     problems = []
     ref = refmodel.step(spec, val, P)
-    if case.get("engine", "numpy") == "numpy":
+    if case.get("manual"):
+        from ..harness import np_manual_steps
+        other = valgen.base_vector(spec, 1)
+        nxt, _ = np_manual_steps(spec, [other, val], P)
+    elif case.get("engine", "numpy") == "numpy":
         nxt, built, raw = np_step(spec, val, P, built=(build_edited(spec, P, case["edited"] if isinstance(case.get("edited"), str) else "links") if case.get("edited")
                                                         else build(spec, touch=bool(case.get("touch")))))
     else:
